@@ -81,7 +81,8 @@ def run_child(spec, scratch, prefix=None, timeout=CHILD_TIMEOUT):
     """returns (returncode, parsed result or None, stderr tail)"""
     cmd = (prefix or []) + child_cmd(spec, scratch)
     try:
-        p = subprocess.run(cmd, env=child_env(), cwd=HOME, capture_output=True, text=True, timeout=timeout)
+        # cwd = scratch: a loader that wrote to a relative path would be seen there, never in /verif
+        p = subprocess.run(cmd, env=child_env(), cwd=scratch, capture_output=True, text=True, timeout=timeout)
     except subprocess.TimeoutExpired:
         return "timeout", None, ""
     return p.returncode, parse_child(p.stdout), p.stderr[-1500:]
